@@ -243,78 +243,56 @@ fn one<const N: usize, const M: usize, const K: usize>(b0: u8, v5ctl: Option<(u8
     rt::<N, M, K>(&img, e)
 }
 
-/// NTPv4, fields at least as long as the RFC 7822 minimum (16, last field 28): identity.
-pharness! {
-    #[kani::unwind(6)]
-    fn c24_rt_v4_one() {
-        let a = one::<80, 144, 1>(V4C, None, [fld(T_UID, 28)], 0, FULL);
-        let d = one::<104, 168, 1>(V4S, None, [fld(T_COOKIE, 28)], 24, FULL);
-        let i = one::<88, 152, 1>(V4C, None, [fld(T_DRAFT, 32)], 4, FULL);
-        assert!(a && d && i, "opaque fields: accepted");
-        kani::cover!(a && d && i, "all accepted");
-    }
+/// One template image per harness (a round trip with fields costs 5-10 min here: the decoded
+/// packet's field vectors live on the heap, where CBMC loses all constants, so the encoder is
+/// explored for every field variant).
+macro_rules! rt_harness {
+    ($n:ident, $unw:expr, $N:expr, $M:expr, $K:expr, $b0:expr, $ctl:expr, $fields:expr, $trailer:expr, $e:expr, must) => {
+        pharness! {
+            #[kani::unwind($unw)]
+            fn $n() {
+                let a = one::<$N, $M, $K>($b0, $ctl, $fields, $trailer, $e);
+                assert!(a, "well-formed image accepted");
+                kani::cover!(a, "round trip");
+            }
+        }
+    };
+    ($n:ident, $unw:expr, $N:expr, $M:expr, $K:expr, $b0:expr, $ctl:expr, $fields:expr, $trailer:expr, $e:expr, may) => {
+        pharness! {
+            #[kani::unwind($unw)]
+            fn $n() {
+                let a = one::<$N, $M, $K>($b0, $ctl, $fields, $trailer, $e);
+                kani::cover!(a, "round trip");
+                kani::cover!(!a, "refused");
+            }
+        }
+    };
 }
-pharness! {
-    #[kani::unwind(30)]
-    fn c24_rt_v4_placeholder() {
-        let a = one::<80, 144, 1>(V4C, None, [fld(T_PLACEHOLDER, 28)], 0, FULL);
-        kani::cover!(a, "all-zero placeholder round trip");
-        kani::cover!(!a, "non-zero placeholder refused");
-    }
-}
-pharness! {
-    #[kani::unwind(6)]
-    fn c24_rt_v4_multi() {
-        let a = one::<96, 160, 2>(V4C, None, [fld(T_UID, 16), fld(T_COOKIE, 28)], 0, FULL);
-        let b = one::<116, 180, 2>(V4S, None, [fld(T_OTHER, 20), fld(T_UID, 28)], 16, FULL);
-        let d = one::<112, 176, 3>(V4C, None, [fld(T_UID, 16), fld(T_COOKIE, 16), fld(T_OTHER, 28)], 0, FULL);
-        assert!(a && b && d, "opaque fields: accepted");
-        kani::cover!(a && b && d, "all accepted");
-    }
-}
-/// NTPv4, fields shorter than the RFC 7822 minimum (last field 28, others 16): accepted, can be
-/// encoded (padded to the minimum), the encoding decodes and is stable.
-pharness! {
-    #[kani::unwind(6)]
-    fn c24_rt_v4_short() {
-        let e = one::<80, 144, 1>(V4S, None, [fld(T_OTHER, 4)], 24, PADDED);
-        let g = one::<80, 144, 1>(V4C, None, [fld(T_COOKIE, 8)], 20, PADDED);
-        let h = one::<80, 144, 1>(V4C, None, [fld(T_UID, 24)], 4, PADDED);
-        let k = one::<96, 160, 2>(V4C, None, [fld(T_UID, 8), fld(T_UID, 28)], 0, PADDED);
-        assert!(e && g && h && k, "accepted");
-        kani::cover!(e && g && h && k, "all accepted");
-    }
-}
-/// NTPv5: draft identification before/after one field, odd lengths: normal form = input with
-/// zeroed padding (and zeroed unused tail of a reference id request).
-pharness! {
-    #[kani::unwind(6)]
-    fn c24_rt_v5_a() {
-        let r4 = one::<100, 164, 2>(V5Q, Some((0, 0)), [DRAFT_F, fld(T_UID, 4)], 0, FULL);
-        let r5 = one::<100, 164, 2>(V5Q, Some((1, 1)), [DRAFT_F, fld(T_COOKIE, 5)], 0, FULL);
-        let r7 = one::<100, 164, 2>(V5R, Some((3, 4)), [DRAFT_F, fld(T_REFID_RESP, 7)], 0, FULL);
-        let r17 = one::<100, 164, 2>(V5Q, Some((0, 1)), [fld(T_OTHER, 17), DRAFT_F], 0, FULL);
-        assert!(r4 && r5 && r7 && r17, "accepted");
-        kani::cover!(r4 && r5 && r7 && r17, "all accepted");
-    }
-}
-pharness! {
-    #[kani::unwind(12)]
-    fn c24_rt_v5_b() {
-        let r8 = one::<100, 164, 2>(V5Q, Some((0, 7)), [DRAFT_F, fld(T_REFID_REQ, 8)], 0, FULL);
-        let r16 = one::<100, 164, 2>(V5Q, Some((2, 2)), [fld(T_REFID_REQ, 16), DRAFT_F], 0, FULL);
-        let r6 = one::<100, 164, 2>(V5R, Some((0, 1)), [DRAFT_F, fld(T_PADDING, 6)], 0, FULL);
-        assert!(r8 && r16 && r6, "accepted");
-        kani::cover!(r8 && r16 && r6, "all accepted");
-    }
-}
-pharness! {
-    #[kani::unwind(20)]
-    fn c24_rt_v5_placeholder() {
-        let a = one::<100, 164, 2>(V5Q, Some((0, 1)), [DRAFT_F, fld(T_PLACEHOLDER, 15)], 0, FULL);
-        kani::cover!(a, "all-zero placeholder round trip");
-    }
-}
+// NTPv4, fields at least as long as the RFC 7822 minimum (16, last field 28): identity
+rt_harness!(c24_rt_v4_uid, 6, 80, 144, 1, V4C, None, [fld(T_UID, 28)], 0, FULL, must);
+rt_harness!(c24_rt_v4_cookie_mac, 6, 104, 168, 1, V4S, None, [fld(T_COOKIE, 28)], 24, FULL, must);
+rt_harness!(c24_rt_v4_draft_type, 6, 88, 152, 1, V4C, None, [fld(T_DRAFT, 32)], 4, FULL, must);
+rt_harness!(c24_rt_v4_placeholder, 30, 80, 144, 1, V4C, None, [fld(T_PLACEHOLDER, 28)], 0, FULL, may);
+rt_harness!(c24_rt_v4_two, 6, 96, 160, 2, V4C, None, [fld(T_UID, 16), fld(T_COOKIE, 28)], 0, FULL, must);
+rt_harness!(c24_rt_v4_two_mac, 6, 116, 180, 2, V4S, None, [fld(T_OTHER, 20), fld(T_UID, 28)], 16, FULL, must);
+rt_harness!(c24_rt_v4_three, 6, 112, 176, 3, V4C, None, [fld(T_UID, 16), fld(T_COOKIE, 16), fld(T_OTHER, 28)], 0, FULL, must);
+// NTPv4, fields shorter than the RFC 7822 minimum: accepted, encoded padded to the minimum, the
+// encoding decodes and is stable (the one normalising round of the property)
+rt_harness!(c24_rt_v4_short4, 6, 80, 144, 1, V4S, None, [fld(T_OTHER, 4)], 24, PADDED, must);
+rt_harness!(c24_rt_v4_short24, 6, 80, 144, 1, V4C, None, [fld(T_UID, 24)], 4, PADDED, must);
+rt_harness!(c24_rt_v4_short_first, 6, 96, 160, 2, V4C, None, [fld(T_UID, 8), fld(T_UID, 28)], 0, PADDED, must);
+// NTPv5: draft identification before/after one field, odd lengths: normal form = input with zeroed
+// padding (and zeroed unused tail of a reference id request)
+rt_harness!(c24_rt_v5_uid4, 6, 100, 164, 2, V5Q, Some((0, 0)), [DRAFT_F, fld(T_UID, 4)], 0, FULL, must);
+rt_harness!(c24_rt_v5_cookie5, 6, 100, 164, 2, V5Q, Some((1, 1)), [DRAFT_F, fld(T_COOKIE, 5)], 0, FULL, must);
+rt_harness!(c24_rt_v5_resp7, 6, 100, 164, 2, V5R, Some((3, 4)), [DRAFT_F, fld(T_REFID_RESP, 7)], 0, FULL, must);
+rt_harness!(c24_rt_v5_other17, 6, 100, 164, 2, V5Q, Some((0, 1)), [fld(T_OTHER, 17), DRAFT_F], 0, FULL, must);
+rt_harness!(c24_rt_v5_req8, 12, 100, 164, 2, V5Q, Some((0, 7)), [DRAFT_F, fld(T_REFID_REQ, 8)], 0, FULL, must);
+rt_harness!(c24_rt_v5_req16, 12, 100, 164, 2, V5Q, Some((2, 2)), [fld(T_REFID_REQ, 16), DRAFT_F], 0, FULL, must);
+rt_harness!(c24_rt_v5_padding6, 6, 100, 164, 2, V5R, Some((0, 1)), [DRAFT_F, fld(T_PADDING, 6)], 0, FULL, must);
+rt_harness!(c24_rt_v5_placeholder, 20, 100, 164, 2, V5Q, Some((0, 1)), [DRAFT_F, fld(T_PLACEHOLDER, 15)], 0, FULL, may);
+rt_harness!(c24_rt_v5_draft_only, 6, 80, 144, 1, V5Q, Some((0, 1)), [DRAFT_F], 0, FULL, must);
+
 /// NTPv5: second draft identification field with arbitrary ASCII content.
 pharness! {
     #[kani::unwind(6)]
